@@ -433,5 +433,6 @@ func body(t *testing.T) {
 }
 
 func TestProp(t *testing.T) {
-	vt.Run(t, prop, vt.Func[Case]{Name: sub, One: one, Body: body}, vt.Func[TreeCase]{Name: subTree, One: treeOne, Body: treeBody})
+	vt.Run(t, prop, vt.Func[Case]{Name: sub, One: one, Body: body}, vt.Func[TreeCase]{Name: subTree, One: treeOne, Body: treeBody},
+		vt.Func[PadCase]{Name: subPad, One: runPad, Body: padBody})
 }
